@@ -80,6 +80,36 @@ def gen_cases(tier):
             if a1 != a2:
                 add(("core", True, ("**", ("+", ("a", a1), ("a", a2)), 2)))
                 add(("core", True, ("+", ("|", ("a", a1), ("a", "g")), ("|", ("a", a2), ("a", "g")))))
+    # long operands: sums of 6-16 items (plain variables, interactions, group terms) as the right / left operand of every
+    # operator, and powers of long sums (dozens of interactions)
+    def vs(n, start=1):
+        return [("a", f"v{i}") for i in range(start, start + n)]
+
+    def chain_of(items):
+        return _chain([("+", it) for it in items])
+
+    for n in (6, 9, 10, 12, 16):
+        plain = vs(n)
+        mixed = list(plain)
+        for j in range(1, n, 3):
+            mixed[j] = ("|", plain[j], ("a", "g"))
+        for j in range(2, n, 4):
+            mixed[j] = (":", plain[j], ("a", "b"))
+        L = ("+", ("a", "a"), ("|", ("a", "x"), ("a", "h")))
+        for R in (chain_of(plain), chain_of(mixed)):
+            add(("core", True, ("+", L, R)))
+            add(("core", True, ("+", R, L)))
+            add(("core", True, R))
+            add(("core", True, ("-", ("+", L, R), R)))
+            add(("core", True, ("-", ("+", R, L), chain_of(vs(n // 2, 2)))))
+        add(("core", True, (":", ("a", "a"), chain_of(plain))))
+        add(("core", True, ("*", chain_of(plain), ("a", "b"))))
+        add(("core", True, ("/", ("a", "a"), chain_of(plain))))
+        add(("core", True, ("|", chain_of(plain), ("a", "g"))))
+        add(("core", True, ("|", ("a", "x"), chain_of(vs(min(n, 9))))))
+    for n, p_ in ((9, 2), (12, 2), (6, 3), (7, 3), (5, 4)):
+        add(("core", True, ("**", chain_of(vs(n)), p_)))
+        add(("core", True, ("+", ("a", "a"), ("**", chain_of(vs(n)), p_))))
     # variables that carry the names the library gives to its own intercept terms are ordinary factors
     odd = ["Intercept", "NegatedIntercept", "a"]
     for n in range(1, 4):
